@@ -1418,6 +1418,9 @@ class Stage:
         assert self._is_original
         if self._stages:
             raise Exception("A stage that has sub-stages of its own cannot be used as a template.")
+        if self._signals:
+            # The signal table is not cloned: der() on the clone would treat the signals as constants
+            raise Exception("A stage with grid='bspline' variables or parameters cannot be used as a template.")
         ret = Stage(parent, **kwargs)
         from copy import copy, deepcopy
 
@@ -1441,6 +1444,7 @@ class Stage:
             ret._placeholders[k_new] = (ph_species, ph_expr, ph_args, ph_kwargs)
 
         ret.states = copy(self.states)
+        ret.qstates = copy(self.qstates)
         ret.controls = copy(self.controls)
         ret.algebraics = copy(self.algebraics)
         ret.parameters = deepcopy(self.parameters)
